@@ -54,6 +54,7 @@ func ruleL9(p *Prog) *RuleResult {
 	for _, d := range decoders {
 		// the reads of the two payload kinds in this function: Next(8192-ish constant) and Next(k*card)
 		var bitmapRead, arrayRead *ssa.Call
+		var cardVal ssa.Value
 		for _, b := range d.Blocks {
 			for _, ins := range b.Instrs {
 				c, ok := ins.(*ssa.Call)
@@ -66,6 +67,7 @@ func ruleL9(p *Prog) *RuleResult {
 					if k, isC := constIntVal(bo.Y); isC && k == 2 {
 						if _, isCall := stripConv(bo.X).(*ssa.Call); !isCall { // 4*nruns is read from the stream; 2*card is not
 							arrayRead = c
+							cardVal = bo.X
 						}
 					}
 				}
@@ -96,42 +98,28 @@ func ruleL9(p *Prog) *RuleResult {
 			res.undecided(cn, p.pos(d.Pos()), "the branch separating the two payload reads was not recognised")
 			continue
 		}
-		bo, ok := decided.Cond.(*ssa.BinOp)
-		if !ok {
-			res.undecided(cn, p.ipos(decided), "the deciding condition is not a comparison")
-			continue
-		}
-		cx, xc := constIntVal(bo.X)
-		cy, yc := constIntVal(bo.Y)
-		if xc == yc {
-			res.undecided(cn, p.ipos(decided), "the deciding comparison is not against a constant")
-			continue
-		}
+		undecidedAt := int64(-1)
 		eval := func(card int64) bool { // is the bitmap payload chosen for this cardinality?
-			l, r := card, cy
-			if xc {
-				l, r = cx, card
+			env := &concreteEnv{bind: map[ssa.Value]cval{cardVal: {i: card}}, freeBool: false}
+			if cv, ok := cardVal.(*ssa.Convert); ok {
+				env.bind[cv.X] = cval{i: card}
 			}
-			var v bool
-			switch bo.Op {
-			case token.GTR:
-				v = l > r
-			case token.GEQ:
-				v = l >= r
-			case token.LSS:
-				v = l < r
-			case token.LEQ:
-				v = l <= r
-			case token.EQL:
-				v = l == r
-			case token.NEQ:
-				v = l != r
+			v, ok := env.evalExpr(decided.Cond, 0)
+			if !ok || !v.isBool {
+				undecidedAt = card
+				return false
 			}
-			if !bitmapOnTrue {
-				v = !v
+			if bitmapOnTrue {
+				return v.b
 			}
-			return v
+			return !v.b
 		}
+		r1, r2, r3, r4 := eval(thrV), eval(thrV+1), eval(1), eval(65536)
+		if undecidedAt >= 0 {
+			res.undecided(cn, p.ipos(decided), "the deciding condition could not be evaluated for a given cardinality (not integer/boolean code over the cardinality)")
+			continue
+		}
+		_, _, _, _ = r1, r2, r3, r4
 		if !eval(thrV) && eval(thrV+1) && !eval(1) && eval(65536) {
 			res.ok(cn, p.ipos(decided), fmt.Sprintf("array up to %d values, bitmap from %d", thrV, thrV+1))
 		} else {
